@@ -178,6 +178,7 @@ func (a *Allocator) ForeachRequest(req *Request, fn func(*Request) bool) {
 func (a *Allocator) GetOffer(req *Request) (*Offer, error) {
 	log.Debug("get offer for %s", req)
 	defer a.validateState("GetOffer")
+	defer a.cleanupUnusedZones()
 
 	err := a.allocate(req)
 	if err != nil {
@@ -207,6 +208,8 @@ func (a *Allocator) Allocate(req *Request) (NodeMask, map[string]NodeMask, error
 		return 0, nil, err
 	}
 
+	a.invalidateOffers()
+
 	return req.zone, a.commitJournal(req), nil
 }
 
@@ -231,6 +234,7 @@ func (a *Allocator) Realloc(id string, affinity NodeMask, types TypeMask) (NodeM
 	}
 
 	defer a.validateState("Realloc")
+	defer a.cleanupUnusedZones()
 
 	return a.realloc(req, affinity, types)
 }
@@ -362,6 +366,8 @@ func (a *Allocator) realloc(req *Request, nodes NodeMask, types TypeMask) (zone 
 
 	req.zone |= nodes | newNodes
 	req.types |= newTypes
+
+	a.invalidateOffers()
 
 	return req.zone, a.commitJournal(req), nil
 }
